@@ -33,6 +33,7 @@ def build(module):
                  modifies=['token.type']),
     ]
     cs += token_bookkeeping(module)
+    cs += newline_bookkeeping(module)
     return cs, [], {}
 
 
@@ -120,3 +121,82 @@ def token_bookkeeping(module):
                  'lt_free': Helper(lambda e, ty: one_of(e, ty, free)), 'declared_type': Helper(lambda e, ty: one_of(e, ty, alltypes))},
             notes=kind))
     return cs
+
+
+def newline_bookkeeping(module):
+    """Lexer._update_newline_idx: for a token whose text contains N line terminator sequences, the line counter goes up by N
+    and N offsets are appended to newline_idx: the k-th is the offset just after the k-th terminator sequence of the text
+    (token.lexpos + lengths of everything up to and including it) -- the start of the next line, which is what the column
+    arithmetic above subtracts.
+
+    Models (assumed, stated in the evidence): `PATTERN.split(text)` with one capturing group returns text pieces and
+    separators alternately, piece_0, sep_0, piece_1, ..., piece_N (the pattern itself -- exactly the ES5 line terminator
+    sequences, CR LF as one -- is decided exhaustively by `regex.line_terminator_split` in C06);
+    `zip(*[iter(xs)] * 2)` yields the consecutive pairs (xs[0], xs[1]), (xs[2], xs[3]), ... and drops an odd last element."""
+    from vf.pyvc.dsl import Loop, PList, SStr, SInt
+    from vf.pyvc.engine import PAbsSeq, FoldSpec
+    Lexer = module.Lexer
+    rec = {}
+    PIECE = z3.Function('piece', z3.IntSort(), z3.StringSort())
+    SEP = z3.Function('separator', z3.IntSort(), z3.StringSort())
+    OFF = z3.Function('offset_after', z3.IntSort(), z3.IntSort())     # OFF(k) = total length of piece_0 sep_0 ... piece_k-1 sep_k-1
+
+    def reset():
+        rec.clear()
+
+    def split_model(e, a, k):
+        rec['text'] = a[0]
+        rec['fragments'] = PObj(object, name='fragments')
+        return rec['fragments']
+
+    def iter_model(e, a, k):
+        if a[0] is not rec.get('fragments'):
+            raise Unsupported('iter() of something else than the split result')
+        rec['iterator'] = PObj(object, name='iterator')
+        return rec['iterator']
+
+    def zip_model(e, a, k):
+        if len(a) != 2 or a[0] is not rec.get('iterator') or a[1] is not rec.get('iterator'):
+            raise Unsupported('zip() of something else than one iterator twice')
+        e.assume(OFF(z3.IntVal(0)) == 0)
+        return PAbsSeq('pairs', kinds=(2,), width=2, elem=lambda i, kind: (SStr(PIECE(i)), SStr(SEP(i))),
+                       elem_facts=lambda el: [])
+    pattern = PObj(object, name='PATT_LINE_TERMINATOR_SEQUENCE')
+    pattern.fields['split'] = PExt('re.Pattern.split', split_model)
+
+    def unfold(e, k):
+        kt = k.t if hasattr(k, 't') else z3.IntVal(k)
+        e.assume(OFF(kt + 1) == OFF(kt) + z3.Length(PIECE(kt)) + z3.Length(SEP(kt)))
+        return True
+    env = {'__reset__': reset, 'PATT_LINE_TERMINATOR_SEQUENCE': pattern, 'iter': PExt('iter', iter_model), 'zip': PExt('zip', zip_model),
+           'off': Helper(lambda e, k: SInt(OFF(k.t if hasattr(k, 't') else z3.IntVal(k)))), 'unfold_off': Helper(unfold),
+           'split_of': Helper(lambda e, text: rec.get('text') is text)}
+
+    class LexerSelf(object):
+        def make(self, name):
+            o = PObj(Lexer, name='self')
+            inner = PObj(object, name='lexer')
+            inner.fields['lineno'] = Int.fresh('lineno')
+            o.fields['lexer'] = inner
+            o.fields['newline_idx'] = PList(FoldSpec(kinds=(), width=0, folds={}).fresh('newline_idx'))
+            return o
+
+        def havoc_obj(self, eng, obj, tag):
+            obj.fields['lexer'].fields['lineno'] = Int.fresh('lineno_' + tag)
+            obj.fields['newline_idx'].val = FoldSpec(kinds=(), width=0, folds={}).fresh('newline_idx_' + tag)
+
+        def __repr__(self):
+            return 'Lexer'
+    from vf.pyvc.sym import Unsupported
+    step = ['''
+assert unfold_off(_k)
+assert self.newline_idx[-1] == token.lexpos + off(_k + 1), 'the offset just after this line terminator sequence is recorded'
+''']
+    loop = Loop(inv=['lexpos == token.lexpos + off(_k)', 'self.lexer.lineno == _line0 + _k', 'len(self.newline_idx) == _n0 + _k'],
+                types={'lexpos': Int, 'self': LexerSelf()}, ghost_step=step, index='_k')
+    c = Contract(MODULE + ':Lexer._update_newline_idx', params={'self': LexerSelf(), 'token': Obj(object, {'lexpos': Int, 'value': Str})},
+                 requires=['len(self.newline_idx) >= 0'],
+                 ensures=['split_of(token.value)', 'self.lexer.lineno == _line0 + len(_iter0)', 'len(self.newline_idx) == _n0 + len(_iter0)',
+                          'result is None', 'token.lexpos == old(token.lexpos)'],
+                 loops=[loop], env=env, hints={'ghost_init': ['_line0 = self.lexer.lineno', '_n0 = len(self.newline_idx)']})
+    return [c]
